@@ -185,7 +185,8 @@ class DistributedConfiguration:
             from mpi4py import MPI
             B = numpy.zeros(A.shape, dtype=A.dtype)
             self.comm.Allreduce(A, B, op=MPI.SUM)
-            A[:,:] = B
+            # the sum goes back into the array, whatever its number of indices
+            A[...] = B
             
         else:
             raise Exception("Unknown reduction operation")      
